@@ -19,7 +19,7 @@ FEATURES = set(gen.FEATURES) - {"faults"}
 
 @st.composite
 def cases(draw, n_arr):
-    avoid = set(c01.AVOID_BY_KEY.values())
+    avoid = c01.current_avoid()
     p = draw(gen.programs({"features": FEATURES, "avoid": avoid, "max_fns": 5, "max_types": 4, "max_stmts": 8}))
     items = top_level_items(p)
     arrangements = []
